@@ -57,6 +57,11 @@ claim("C11",
       "SHA-256 is modelled as an injective uninterpreted function (collision freedom assumed). File round trips of ACL SAVE/LOAD are not covered. Bounds in the evidence assumptions.",
       "DESIGN.md C11")
 
+claim("C12",
+      "Every data command is run symbolically on argument vectors of every small arity with arbitrary (not CR/LF-free) strings: it must not panic and a non-error reply must parse as exactly one strict RESP value; stored arbitrary bytes must come back equal through the readers; the real connection loop (handleConnection -> ReadMessage -> handleCommand -> chunked write) is executed on a fake net.Conn with a reply whose length covers every alignment of the 1 KB chunking arithmetic, and with commands delivered in one or several reads.",
+      "Known findings: pipelined commands in one read and commands split across reads (framing by short read). Bounds in the evidence assumptions.",
+      "DESIGN.md C12")
+
 # every property without a claim is listed as not applicable (yet) with its reason
 NA_REASONS = {}
 for n in range(1, 21):
